@@ -12,7 +12,6 @@ import (
 	"sort"
 	"strconv"
 	"strings"
-	"sync"
 	"time"
 
 	"github.com/paulmach/osm"
@@ -47,6 +46,7 @@ type c19Dir struct {
 	// timestamp assignments of large directories); missing marks the absent files.
 	secs    []int64
 	missing map[uint64]bool
+	gzip    bool // the server applies Content-Encoding: gzip to state files when asked
 }
 
 func c19Mix(a, b uint64) uint64 {
@@ -199,14 +199,14 @@ func (d *c19Dir) stateFile(n uint64) srv.StateFile {
 
 func (d *c19Dir) serverDir() *srv.Dir {
 	if d.secs != nil {
-		return &srv.Dir{Stream: d.stream, Current: d.current(), Lookup: func(n uint64) (srv.StateFile, bool) {
+		return &srv.Dir{Stream: d.stream, Current: d.current(), GzipText: d.gzip, Lookup: func(n uint64) (srv.StateFile, bool) {
 			if n < 1 || n > uint64(len(d.secs)) || d.missing[n] {
 				return srv.StateFile{}, false
 			}
 			return d.stateFile(n), true
 		}}
 	}
-	sd := &srv.Dir{Stream: d.stream, States: make(map[uint64]srv.StateFile, len(d.present)), Current: d.current()}
+	sd := &srv.Dir{Stream: d.stream, States: make(map[uint64]srv.StateFile, len(d.present)), Current: d.current(), GzipText: d.gzip}
 	for _, n := range d.present {
 		sd.States[n] = d.stateFile(n)
 	}
@@ -320,12 +320,13 @@ func (d *c19Dir) budget(t time.Time, windowed bool) (budget, rng, missing int) {
 // the fake server of this process and the library calls
 
 var (
-	c19Once   sync.Once
-	c19Planet *srv.Planet
+	c19Planet *srv.Planet // cases run one after the other in a process
 )
 
 func c19Server() *srv.Planet {
-	c19Once.Do(func() { c19Planet = srv.NewPlanet() })
+	if c19Planet == nil {
+		c19Planet = srv.NewPlanet()
+	}
 	return c19Planet
 }
 
@@ -333,6 +334,13 @@ var c19DsCount int
 
 // c19Datasource makes a Datasource for the loaded directory, alternately as a struct literal
 // and through the constructor; the client stamps and tracks what it hands to the library.
+func c19StopServer() {
+	if c19Planet != nil {
+		c19Planet.Close()
+		c19Planet = nil
+	}
+}
+
 func c19Datasource(p *srv.Planet) *replication.Datasource {
 	c19DsCount++
 	if c19DsCount%2 == 0 {
@@ -356,7 +364,18 @@ type c19Sess struct {
 
 var c19Session *c19Sess
 
-func c19StateAt(ds *replication.Datasource, stream string, t time.Time) (uint64, *replication.State, error) {
+// c19Panic turns a panic of the library on the calling goroutine into an error, so that the
+// lookup it happened in is reported and the rest of the case still runs.
+type c19Panic struct{ v any }
+
+func (e c19Panic) Error() string { return fmt.Sprintf("panic in the library: %v", e.v) }
+
+func c19StateAt(ds *replication.Datasource, stream string, t time.Time) (rn uint64, rs *replication.State, rerr error) {
+	defer func() {
+		if x := recover(); x != nil {
+			rn, rs, rerr = 0, nil, c19Panic{x}
+		}
+	}()
 	ctx := context.Background()
 	if c19Session != nil && c19Session.deadline > 0 {
 		var cancel context.CancelFunc
@@ -378,7 +397,12 @@ func c19StateAt(ds *replication.Datasource, stream string, t time.Time) (uint64,
 	return uint64(n), s, err
 }
 
-func c19State(ds *replication.Datasource, stream string, n uint64) (*replication.State, error) {
+func c19State(ds *replication.Datasource, stream string, n uint64) (rs *replication.State, rerr error) {
+	defer func() {
+		if x := recover(); x != nil {
+			rs, rerr = nil, c19Panic{x}
+		}
+	}()
 	ctx := context.Background()
 	switch stream {
 	case srv.Minute:
@@ -391,7 +415,12 @@ func c19State(ds *replication.Datasource, stream string, n uint64) (*replication
 	return ds.ChangesetState(ctx, replication.ChangesetSeqNum(n))
 }
 
-func c19CurrentState(ds *replication.Datasource, stream string) (uint64, *replication.State, error) {
+func c19CurrentState(ds *replication.Datasource, stream string) (rn uint64, rs *replication.State, rerr error) {
+	defer func() {
+		if x := recover(); x != nil {
+			rn, rs, rerr = 0, nil, c19Panic{x}
+		}
+	}()
 	ctx := context.Background()
 	switch stream {
 	case srv.Minute:
@@ -411,6 +440,7 @@ func c19CurrentState(ds *replication.Datasource, stream string) (uint64, *replic
 var c19KeyLog = os.Getenv("VERIF_C19_KEYLOG") // development aid: append every violation key to this file
 
 func c19Violate(res *fw.Result, key, what string, detail any) {
+	key += c19TZ // the process zone is part of the input
 	res.Violate(key, what, detail)
 	if c19KeyLog != "" {
 		if f, err := os.OpenFile(c19KeyLog, os.O_APPEND|os.O_CREATE|os.O_WRONLY, 0o644); err == nil {
@@ -607,6 +637,8 @@ func c19Lookup(res *fw.Result, p *srv.Planet, sd *srv.Dir, d *c19Dir, q, v int, 
 	case count > budget:
 		c19Violate(res, inKey+"/budget", fmt.Sprintf("lookup used more than the budget of %d requests (range %d, %d missing): non-termination or linear scan; S={%s} t=%s ended with err=%v",
 			budget, rng, missing, obs.Present, obs.Query, err), detail())
+	case errors.As(err, new(c19Panic)):
+		c19Violate(res, inKey+"/panic", fmt.Sprintf("%v; S={%s} t=%s", err, obs.Present, obs.Query), detail())
 	case err != nil:
 		c19Violate(res, inKey+"/error", fmt.Sprintf("lookup failed although every answer was 200 or 404: %v; S={%s} t=%s", err, obs.Present, obs.Query), detail())
 	case got != want || st == nil || st.SeqNum != want:
@@ -678,7 +710,7 @@ func c19Cases(tier string, seed uint64) []fw.Case {
 				if hi > total {
 					hi = total
 				}
-				cs = append(cs, fw.Case{Kind: "enum", P: map[string]int64{"stream": int64(si), "n": int64(n), "lo": int64(lo), "hi": int64(hi)}})
+				cs = append(cs, fw.Case{Kind: "enum", P: map[string]int64{"stream": int64(si), "n": int64(n), "lo": int64(lo), "hi": int64(hi), "tz": int64((n + lo/c19EnumChunk + si) % len(c19Zones))}})
 			}
 		}
 	}
@@ -687,40 +719,63 @@ func c19Cases(tier string, seed uint64) []fw.Case {
 		nRand, nOff, nFmt, nData = 2400, 1200, 64, 32
 	}
 	for i := 0; i < nRand; i++ {
-		cs = append(cs, fw.Case{Kind: "rand", Seed: gen.Sub(seed, "c19rand", i), P: map[string]int64{"stream": int64(i % 4)}})
+		cs = append(cs, fw.Case{Kind: "rand", Seed: gen.Sub(seed, "c19rand", i), P: map[string]int64{"stream": int64(i % 4), "tz": int64((i/4 + i/16) % len(c19Zones))}})
 	}
 	for i := 0; i < nOff; i++ {
-		cs = append(cs, fw.Case{Kind: "offset", Seed: gen.Sub(seed, "c19off", i), P: map[string]int64{"stream": int64(i % 4), "site": int64(i / 4 % len(c19Sites))}})
+		cs = append(cs, fw.Case{Kind: "offset", Seed: gen.Sub(seed, "c19off", i), P: map[string]int64{"stream": int64(i % 4), "tz": int64((i/4 + i/16) % len(c19Zones)), "site": int64(i / 4 % len(c19Sites))}})
 	}
 	nSkew := 32
 	if tier == "thorough" {
 		nSkew = 480
 	}
 	for i := 0; i < nSkew; i++ {
-		cs = append(cs, fw.Case{Kind: "skew", Seed: gen.Sub(seed, "c19skew", i), P: map[string]int64{"stream": int64(i % 4), "profile": int64(i / 4 % len(c19SkewProfiles))}})
+		cs = append(cs, fw.Case{Kind: "skew", Seed: gen.Sub(seed, "c19skew", i), P: map[string]int64{"stream": int64(i % 4), "tz": int64((i/4 + i/16) % len(c19Zones)), "profile": int64(i / 4 % len(c19SkewProfiles))}})
 	}
 	nGrow, nConn := 16, 8
 	if tier == "thorough" {
 		nGrow, nConn = 200, 48
 	}
 	for i := 0; i < nGrow; i++ {
-		cs = append(cs, fw.Case{Kind: "grow", Seed: gen.Sub(seed, "c19grow", i), P: map[string]int64{"stream": int64(i % 4)}})
+		cs = append(cs, fw.Case{Kind: "grow", Seed: gen.Sub(seed, "c19grow", i), P: map[string]int64{"stream": int64(i % 4), "tz": int64((i/4 + i/16) % len(c19Zones))}})
 	}
 	for i := 0; i < nConn; i++ {
-		cs = append(cs, fw.Case{Kind: "conn", Seed: gen.Sub(seed, "c19conn", i), P: map[string]int64{"stream": int64(i % 4), "conns": int64(1 + i/4%2)}})
+		cs = append(cs, fw.Case{Kind: "conn", Seed: gen.Sub(seed, "c19conn", i), P: map[string]int64{"stream": int64(i % 4), "tz": int64((i/4 + i/16) % len(c19Zones)), "conns": int64(1 + i/4%2)}})
 	}
 	for i := 0; i < nFmt; i++ {
-		cs = append(cs, fw.Case{Kind: "format", Seed: gen.Sub(seed, "c19fmt", i), P: map[string]int64{"stream": int64(i % 4)}})
+		cs = append(cs, fw.Case{Kind: "format", Seed: gen.Sub(seed, "c19fmt", i), P: map[string]int64{"stream": int64(i % 4), "tz": int64((i/4 + i/16) % len(c19Zones))}})
 	}
 	for i := 0; i < nData; i++ {
-		cs = append(cs, fw.Case{Kind: "data", Seed: gen.Sub(seed, "c19data", i), P: map[string]int64{"stream": int64(i % 4)}})
+		cs = append(cs, fw.Case{Kind: "data", Seed: gen.Sub(seed, "c19data", i), P: map[string]int64{"stream": int64(i % 4), "tz": int64((i/4 + i/16) % len(c19Zones))}})
 	}
 	return fw.Number(cs)
 }
 
+// c19Zones are process time zones (time.Local) a case can run under: what a state file says
+// does not depend on where the process runs.
+var c19Zones = []*time.Location{nil, time.FixedZone("IST", 5*3600+1800), time.FixedZone("EST", -5*3600), time.FixedZone("NZST", 12*3600)}
+
+var c19TZ string // "/tz=<zone>" while a case runs with time.Local replaced
+
 func c19Exec(c fw.Case) *fw.Result {
 	res := fw.NewResult()
+	if z := c19Zones[int(c.Int("tz"))%len(c19Zones)]; z != nil {
+		// time.Local is read by every time.Now(), also on the goroutines of the fake server:
+		// the server is shut down (Close waits for them) before the zone is switched and a
+		// fresh one serves this case; the same on the way back. Nothing of the library runs
+		// between lookups.
+		c19StopServer()
+		old := time.Local
+		time.Local = z
+		c19TZ = "/tz=" + z.String()
+		defer func() {
+			c19StopServer()
+			time.Local = old
+			c19TZ = ""
+		}()
+	}
 	p := c19Server()
+	res.Put("process_zones", time.Local.String())
+	defer func() { res.Add("state_files_sent_gzip_encoded", p.TakeGzipped()) }()
 	stream := srv.Streams[int(c.Int("stream"))%4]
 	switch c.Kind {
 	case "enum":
@@ -752,7 +807,7 @@ func c19Exec(c fw.Case) *fw.Result {
 func c19ExecEnum(res *fw.Result, p *srv.Planet, stream string, n, lo, hi int) {
 	var first *c19LookupObs
 	for mask := lo; mask < hi; mask++ {
-		d := &c19Dir{stream: stream, step: c19RegularStep(stream), min: 1}
+		d := &c19Dir{stream: stream, step: c19RegularStep(stream), min: 1, gzip: mask%3 == 1}
 		for i := 1; i < n; i++ {
 			if mask>>(uint(i-1))&1 == 1 {
 				d.present = append(d.present, uint64(i))
@@ -890,6 +945,7 @@ func c19ExecRand(res *fw.Result, p *srv.Planet, stream string, seed uint64) {
 			n = uint64(r.Range(12, 400))
 		}
 		d := &c19Dir{stream: stream, tsid: r.Uint64() | 1, step: 60, min: 1, altFmt: true}
+		d.gzip = d.tsid>>21%3 == 0
 		if r.Chance(0.3) {
 			d.step = c19RegularStep(stream)
 		}
@@ -960,6 +1016,7 @@ func c19ExecOffset(res *fw.Result, p *srv.Planet, stream string, seed uint64, si
 		lo := start + uint64(r.Intn(6))
 		hi := lo + w
 		d := &c19Dir{stream: stream, tsid: r.Uint64() | 1, step: 60, min: 1, altFmt: true}
+		d.gzip = d.tsid>>21%3 == 0
 		missing := map[uint64]bool{}
 		if r.Chance(0.7) {
 			density := []float64{0.05, 0.2, 0.5}[r.Intn(3)]
@@ -1064,6 +1121,7 @@ func c19ExecSkew(res *fw.Result, p *srv.Planet, stream string, seed uint64, pi i
 		aux := uint64(r.Intn(1000))
 		d := &c19Dir{stream: stream, min: 1, step: 60, secs: c19SkewSecs(profile, n, pause, aux), missing: map[uint64]bool{}}
 		d.tsid = c19Mix(uint64(n)<<20^uint64(pause), aux) | 1
+		d.gzip = d.tsid>>21%3 == 0
 		gapMode := r.Intn(5)
 		switch gapMode {
 		case 0: // scattered single files
@@ -1152,6 +1210,7 @@ func c19ExecGrow(res *fw.Result, p *srv.Planet, stream string, seed uint64) {
 	for di := 0; di < 3; di++ {
 		n0 := uint64(r.Range(2, 60))
 		tmpl := c19Dir{stream: stream, tsid: r.Uint64() | 1, step: 60, min: 1, altFmt: true}
+		tmpl.gzip = tmpl.tsid>>21%3 == 0
 		if r.Chance(0.3) {
 			tmpl.prefix = r.PickS(c19Prefixes...)
 		}
@@ -1266,6 +1325,7 @@ func c19ExecConn(res *fw.Result, p *srv.Planet, stream string, seed uint64, conn
 	for di := 0; di < 3 && !c19Session.hung; di++ {
 		n := uint64(r.Range(20, 200))
 		d := &c19Dir{stream: stream, tsid: r.Uint64() | 1, step: 60, min: 1, altFmt: true}
+		d.gzip = d.tsid>>21%3 == 0
 		missing := map[uint64]bool{}
 		density := []float64{0, 0.05, 0.3}[r.Intn(3)]
 		for x := uint64(1); x < n; x++ {
@@ -1395,8 +1455,11 @@ func c19ExecFormat(res *fw.Result, p *srv.Planet, stream string, seed uint64) {
 					}
 					txnKey = fmt.Sprintf("/txn=%d,%d,active=%d", sf.TxnMax, sf.TxnMaxQueried, len(sf.TxnActive))
 				}
-				sd := &srv.Dir{Stream: stream, States: map[uint64]srv.StateFile{n: sf}, Current: n}
+				sd := &srv.Dir{Stream: stream, States: map[uint64]srv.StateFile{n: sf}, Current: n, GzipText: i%3 == 2}
 				key := fmt.Sprintf("C19/state/stream=%s/fmt=%s/n=%d/time=%s%s/prefix=%s", stream, f, n, tm.Format(time.RFC3339Nano), txnKey, pf)
+				if sd.GzipText {
+					key += "/gzip"
+				}
 				check := func(what string, gotN uint64, st *replication.State, err error, wantPath string) {
 					count, log, unexpected, _ := p.Observed()
 					detail := map[string]any{"file": string(srv.RenderState(stream, n, sf, what == "current")), "log": log}
@@ -1504,7 +1567,10 @@ func c19FormatLayouts(res *fw.Result, p *srv.Planet, ds *replication.Datasource,
 				}
 				body := srv.RenderState(stream, n, sf, false)
 				key := fmt.Sprintf("C19/state/stream=%s/layout=order%d,active%d,ready%d,crlf=%v,extra%d/n=%d", stream, order, sz[0], sz[1], sf.CRLF, len(sf.Extra), n)
-				sd := &srv.Dir{Stream: stream, States: map[uint64]srv.StateFile{n: sf}, Current: n}
+				sd := &srv.Dir{Stream: stream, States: map[uint64]srv.StateFile{n: sf}, Current: n, GzipText: (si+vi)%2 == 0}
+				if sd.GzipText {
+					key += "/gzip"
+				}
 				for _, what := range []string{"file", "current"} {
 					p.Load(sd, 4, "")
 					ds.BaseURL = p.BaseURL()
@@ -1661,7 +1727,7 @@ func init() {
 			"(current always present) x every query position (before first, at each, between each, after last) — independent of the seed. " +
 			"rand: ranges up to 400 with random density and gap runs next to the probe sequence of a binary search; offset: windows at high " +
 			"offsets crossing directory levels with everything below missing; format: single state files in each documented layout; data: " +
-			"sequence-numbered data files; skew: gap-free and sparse-gap ranges of 1 000 to 100 000 states with skewed timestamp assignments (pauses, exponential spacing, clusters, bursts). Minute state files have realistic sizes (txnActiveList up to thousands of ids, 1-64 KiB), key orders, unknown keys, comments, CRLF (format); base URLs with percent-escaped path prefixes; grow: one Datasource reused while the directory advances inside one base URL; conn: connection-limited client and 404s with bodies; every response body handed to the library is tracked; before-all / after-all queries also use extreme instants (zero time, years 1000..9999, the edges of the int64 nanosecond range, Unix(+-2^40)). Signature = kind/stream/log2(range)/missing-count class/query position class (for queries equal to a state's time also the representation of the instant: UTC, time.Unix, fixed zones, Local, monotonic reading)/first-state present or " +
+			"sequence-numbered data files; skew: gap-free and sparse-gap ranges of 1 000 to 100 000 states with skewed timestamp assignments (pauses, exponential spacing, clusters, bursts). Minute state files have realistic sizes (txnActiveList up to thousands of ids, 1-64 KiB), key orders, unknown keys, comments, CRLF (format); base URLs with percent-escaped path prefixes; grow: one Datasource reused while the directory advances inside one base URL; conn: connection-limited client and 404s with bodies; every response body handed to the library is tracked; a third of the directories are served with Content-Encoding: gzip when asked, three quarters of the cases run with time.Local set to a non-UTC zone; before-all / after-all queries also use extreme instants (zero time, years 1000..9999, the edges of the int64 nanosecond range, Unix(+-2^40)). Signature = kind/stream/log2(range)/missing-count class/query position class (for queries equal to a state's time also the representation of the instant: UTC, time.Unix, fixed zones, Local, monotonic reading)/first-state present or " +
 			"missing (prefix-only or scattered gaps); a signature is non-trivial when a lookup was actually executed against the fake server.",
 		Assumptions: []string{
 			"The fake server models the planet layout from its documentation: /replication/<stream>/state.txt (state.yaml for changesets), NNN/NNN/NNN.state.txt, .osc.gz / .osm.gz; timestamps strictly increase with the sequence number; the current state is the newest present file.",
